@@ -49,9 +49,18 @@ def run():
              f"(2)/(3) with one pin per component in every commit, each pin monotone on its own, each pin "
              f"staying with probability 0.5-0.85 per commit (builds moving one pin, several pins or none); the "
              f"clauses are demanded for every component separately. "
+             f"(5) {b.notes.get('zero_cases')} seeded histories with version components equal to 0: a case drawn "
+             f"as in (2), (3) or (4) (one third each) whose version numbers are replaced, per repository and "
+             f"order preserved: the releases named in the build tags by a sorted sample of 0.0, 0.1, 0.9, 0.10, "
+             f"1.0, 1.1, 2.0, 3.0, 3.1, 5.4, 10.0 (the lowest with major version 0 in >= 3 of 4 repositories), "
+             f"all build numbers lowered by one amount (the lowest becoming 0 in >= half of the repositories), "
+             f"release branches renamed likewise (a one-branch one-release repository gets the branch of its "
+             f"release, e.g. release/0.9 with tags build_N_release_0_9_success), the owner's pins rewritten to "
+             f"the new numbers; build numbers come from the tags only (no saved-version file). "
              f"non-trivial = (1) >= 2 repositories with a dependency between supplied ones, "
              f"(2), (3) the parent's builds pin >= 2 distinct component builds, (4) the same for some component "
-             f"and >= 2 components have a report-related build first shipped by some owner build",
+             f"and >= 2 components have a report-related build first shipped by some owner build, (5) as the "
+             f"family the case was drawn from",
         exhaustive=False,
         extra={'exhaustive_part': 'repo_order over <= 4 repositories', 'counts': dict(b.notes)})
     cov.update(ppart)
